@@ -1843,9 +1843,9 @@ class Module(Object):
 
         See also: [`is_module`][griffe.Module.is_module].
         """
-        if isinstance(self.filepath, list):
-            return False
         try:
+            if isinstance(self.filepath, list):
+                return False
             return self.filepath.name.split(".", 1)[0] == "__init__"
         except BuiltinModuleError:
             return False
